@@ -57,6 +57,17 @@ def random_op(rng, files, weights):
             a, b = rng.choice(DIR_MOVES)
             return {"op": "rename", "src": a, "dst": b}
         a = rng.choice(files)
+        r0 = rng.random()
+        if r0 < 0.2:
+            # a rename that changes only letter case (file or one of its directories)
+            parts = a.split("/")
+            j = rng.randrange(len(parts))
+            parts[j] = parts[j].swapcase() if parts[j].swapcase() != parts[j] else parts[j].upper()
+            src = "/".join(a.split("/")[: j + 1])
+            return {"op": "rename", "src": src, "dst": "/".join(parts[: j + 1])}
+        if r0 < 0.28:
+            # ... and back, or onto the lower-case spelling of a name that may exist in another case
+            return {"op": "rename", "src": a.swapcase(), "dst": a}
         if rng.random() < 0.3:
             # same bytes under another language's extension
             stem = a.rsplit(".", 1)[0]
